@@ -1,12 +1,12 @@
-\* C16 thorough: fragments of <= 2 characters over {a, é, 😀} (1-, 2-, 4-byte), hole labels {"", x, é},
-\* <= 3 parts: 4369 templates, all 19 088 161 ordered pairs as initial states; repaired cursor algorithm.
+\* C16 thorough (1 of 3; the quick configuration is run as well): fragments of <= 1 character over
+\* {a, é, 😀} (1-, 2-, 4-byte), hole labels {"", x, é}, <= 4 parts: 2801 templates, all 7 845 601 ordered pairs.
 SPECIFICATION Spec
 CONSTANTS
     Chars = {"a", "é", "😀"}
     CharBytes <- MC_CharBytes
     Labels = {"", "x", "é"}
-    MaxFragLen = 2
-    MaxParts = 3
+    MaxFragLen = 1
+    MaxParts = 4
     Algo = "repaired"
 INVARIANTS CursorRefinesEqual CursorsInRange RenderIndependentOfSplit EquivalenceInv
 PROPERTY Progress
